@@ -30,6 +30,10 @@ def timeArrayJ (a : TimeArray) : Json :=
 
 def axisJ (a : Axis) : Json := Json.mkObj [("coords", ratsJ a.coords), ("step", ratJ a.step)]
 
+def specJ (r : SpecAxes) (len : Nat) : Json :=
+  Json.mkObj [("nperseg", intJ r.nperseg), ("noverlap", intJ r.noverlap), ("len", natJ len),
+    ("time", axisJ r.time), ("freq", axisJ r.freq)]
+
 def handle (op : String) (a : Json) : Except String Json := do
   match op with
   | "load_clip" =>
@@ -54,9 +58,28 @@ def handle (op : String) (a : Json) : Except String Json := do
   | "spectrogram" =>
     match stftAxes (← fldNat a "len") (← fldRat a "t0") (← fldRat a "step") (← fldRat a "w")
         (← fldRat a "h") with
-    | .ok r => return valJ (Json.mkObj [("nperseg", intJ r.nperseg), ("noverlap", intJ r.noverlap),
-        ("time", axisJ r.time), ("freq", axisJ r.freq)])
+    | .ok r => return valJ (specJ r (← fldNat a "len"))
     | .error e => return errJ e
+  | "clip_spectrogram" =>
+    -- the pipeline `compute_spectrogram(load_clip(clip), w, h)`
+    let (file, ch) ← getFile (← fld a "file")
+    let sr ← fldNat a "sr"
+    match loadClip file ch sr (← fldRat a "s") (← fldRat a "e") with
+    | .error e => return errJ e
+    | .ok c =>
+      match stftAxes c.frames.length (c.times.headD 0) c.step (← fldRat a "w") (← fldRat a "h") with
+      | .ok r => return valJ (specJ r c.frames.length)
+      | .error e => return errJ e
+  | "clip_resample" =>
+    -- the pipeline `resample(load_clip(clip), target)`
+    let (file, ch) ← getFile (← fld a "file")
+    let sr ← fldNat a "sr"
+    match loadClip file ch sr (← fldRat a "s") (← fldRat a "e") with
+    | .error e => return errJ e
+    | .ok c =>
+      match resampleAxis c.times.length (c.times.headD 0) (c.times.getD 1 0) c.step (← fldNat a "target") with
+      | .ok r => return valJ (axisJ r)
+      | .error e => return errJ e
   | "holds_axis" =>
     let ax : Axis := ⟨← getRatList (← fld a "coords"), ← fldRat a "step"⟩
     return boolJ (axisOk (← fldRat a "first") ax)
